@@ -36,6 +36,18 @@ DONE = {
   text="Generated multi-document file stores are closed, the derived tables (heads, by-key index, or both) are deleted with plain redb, and the store is reopened 1..=4 times: heads are compared with the per-author maxima of the records, key-ordered queries with the naive executor of C05, everything else with the pre-deletion dump, and each further reopen with the previous one.",
   note="Older databases are emulated by table deletion; the redb 2.x tuple-format migration is left to the repository's own tests.",
   technique=PBT + ": metamorphic (delete derived tables, reopen) + model oracle"),
+ "C03": dict(level="exploration",
+  text="A validly signed entry is tampered in every way the statement lists (bit flips / byte changes of each field and signature, borrowed or swapped signatures, other real keys or non-curve points as ids, wrong signing secrets, timestamps around now+10min under a pinned clock, the four emptiness combinations) and offered both as a single remote insert and inside crafted reconciliation messages through the store actor with a subscriber; acceptance, stored state and events must coincide with an independently evaluated validity predicate on both paths. All single-bit flips of one base entry are enumerated exhaustively in every run.",
+  note="Trusts ed25519 (signatures are verified by the oracle with iroh::PublicKey::verify over independently assembled bytes); forged entries are built through the public serde encoding.",
+  technique=PBT + " + exhaustive single-bit-flip enumeration: metamorphic tampering vs. validity-predicate oracle on two ingress paths"),
+ "C12": dict(level="exploration",
+  text="Histories through the store actor (local writes, valid / superseded / invalid remote inserts, crafted messages, real sessions during which a local write obsoletes in-flight entries, subscribers joining, unsubscribing and dropping, policy changes, all content-status values); after every request each channel is drained and compared as an exact event sequence with the model applied to the step's valid entries in processing order, plus model-independent clauses (no event on error, only offered entries, all subscribers agree, nothing after leaving).",
+  note="Channels have capacity 4096 so the actor never blocks; a post-state that differs from the model is attributed to C02 and only model-independent clauses are judged.",
+  technique=PBT + ": event-sequence oracle from the reference model over observed pre-states"),
+ "C14": dict(level="exploration",
+  text="Sequential client histories over three documents covering every request kind of the store handle; a per-document model {exists, handles, sync, subscribers, entries} predicts each reply's success class, close's boolean, get_state and the contents; failed requests must change nothing; the store returned by shutdown must hold every acknowledged write.",
+  note="One client, so replies-in-request-order is checked as 'each reply reflects all earlier requests'; concurrent clients are not explored by this check.",
+  technique=PBT + ": history vs. open/close/sync state-machine model"),
  "C05": dict(level="exploration",
   text="For generated replica states, generated queries over the full product of query options are compared, as exact sequences, with a naive filter/group/sort/skip/take executor over the store's actual contents; point lookups and the two physical access paths are cross-checked.",
   note="Latest-per-key semantics as documented on Query (author filter after grouping); ties between authors at the greatest timestamp are judged by a validity predicate or skipped and counted.",
